@@ -62,9 +62,9 @@ def make_world():
     return w, r
 
 
-OUTPUTS = ["a", "inf", "prev", "rec", "a:b", {"n_ab": ["a", "b"]}, {"p_ip": ["inf", "pr2"]}, {"form": "a+b"}]
+OUTPUTS = ["a", "inf", "prev", "rec", "a:b", {"n_ab": ["a", "b"]}, {"p_ip": ["inf", "pr2"]}, {"form": "a+b"}, {"p_rb": ["rec", "back"]}, {"f_mix": ["a:b", "c:a"]}]  # p_rb / f_mix: members leave different compartments (different weights)
 POPS = ["pa", "pb", ["pa", "pb"], "total", [{"both": ["pa", "pb"]}]]
-OAGG = [None, "sum", "average"]
+OAGG = [None, "sum", "average", "weighted"]
 PAGG = [None, "sum", "average", "weighted"]
 TRANSFORMS = ["raw", "interp", "tagg_int", "tagg_avg"]
 
@@ -172,13 +172,15 @@ def run_popselect(case):
     sel = [POPITEMS[i] for i in case["sel"]]
     vs = []
     ncalls = ncmp = 0
-    for o, pagg, tr in itertools.product(OUTPUTS, PAGG, ("raw", "tagg_int")):
+    for o, oagg, pagg, tr in itertools.product(OUTPUTS, OAGG, PAGG, ("raw", "tagg_int")):
+        if oagg and not isinstance(o, dict):
+            continue  # output aggregation options only matter for aggregated outputs
         singles = []
         for it in sel:
-            key = ("popsingle", oname(o), oname(it), pagg, tr)
+            key = ("popsingle", oname(o), oname(it), oagg, pagg, tr)
             if key not in _SINGLE:
                 try:
-                    d = plotdata(r, [o], [it], None, pagg, tr)
+                    d = plotdata(r, [o], [it], oagg, pagg, tr)
                     _SINGLE[key] = {(s_.pop, s_.output): np.array(s_.vals, dtype=float) for s_ in d.series}
                 except Exception as e:
                     _SINGLE[key] = e
@@ -186,9 +188,9 @@ def run_popselect(case):
         if any(isinstance(s_, Exception) for s_ in singles):
             continue
         try:
-            d = plotdata(r, [o], sel, None, pagg, tr)
+            d = plotdata(r, [o], sel, oagg, pagg, tr)
         except Exception as e:
-            vs.append(V("joint-call-fails", f"output {oname(o)} pops={sel} pop_aggregation={pagg} {tr}: every population works on its own but the joint call raises {type(e).__name__}: {str(e)[:120]}", None))
+            vs.append(V("joint-call-fails", f"output {oname(o)} pops={sel} output_aggregation={oagg} pop_aggregation={pagg} {tr}: every population works on its own but the joint call raises {type(e).__name__}: {str(e)[:120]}", None))
             break
         ncalls += 1
         got = {(s_.pop, s_.output): np.array(s_.vals, dtype=float) for s_ in d.series}
@@ -197,7 +199,7 @@ def run_popselect(case):
                 ncmp += 1
                 g = got.get(key)
                 if g is None or g.shape != v.shape or not np.allclose(g, v, rtol=1e-12, atol=0, equal_nan=True):
-                    vs.append(V("depends-on-other-populations", f"output {key[1]!r} population {key[0]!r} (pop_aggregation={pagg}, {tr}): requested together with {sel} in this order gives {None if g is None else g[:3].tolist()}..., on its own {v[:3].tolist()}...", dict(pops=[oname(x) for x in sel])))
+                    vs.append(V("depends-on-other-populations", f"output {key[1]!r} population {key[0]!r} (output_aggregation={oagg}, pop_aggregation={pagg}, {tr}): requested together with {sel} in this order gives {None if g is None else g[:3].tolist()}..., on its own {v[:3].tolist()}...", dict(pops=[oname(x) for x in sel])))
                     break
             if vs:
                 break
